@@ -128,6 +128,11 @@ def selftest():
         for fn, fe in e["fields"].items():
             if g["fields"].get(fn) != fe:
                 vbad.append("%s field %s: expected %s, extracted %s" % (t, fn, fe, g["fields"].get(fn)))
+    # both spellings of the shallow merge (maps.Clone + loop / make + maps.Copy twice) must give IDENTICAL rows
+    # (false alarm of 2026-10-02, seeded/harmless/C17-r3)
+    ca, cb = vgot.get("vMergeCloneAuth"), vgot.get("vMergeCopyAuth")
+    if ca is None or cb is None or ca != cb or not ca["ok"]:
+        vbad.append("vMergeCloneAuth and vMergeCopyAuth must have identical, passing rows: %s vs %s" % (ca, cb))
     if vbad:
         return False, "translator self-test FAILED (variant table of the fixture): " + "; ".join(vbad)
     msg = "translator self-test: %d seeded methods of the fixture module extracted as expected; variant table of %d fixture types " \
